@@ -817,3 +817,13 @@ def r16(ctx):
 
 
 RULES.append(("C09.R16", "T1-census", "narrowing integer casts outside the measurement conversions are masked, range-guarded or listed", r16))
+
+
+def r17(ctx):
+    """'what one side encodes the other decodes' for relative-time events: the common time of occurrence stays in effect on the master
+    for all following relative-time headers, and the outstation writes it for every such header (C10.R5, shared code)."""
+    import c10
+    c10.r5(ctx)
+
+
+RULES.append(("C09.R17", "T8", "the common time of occurrence is carried across headers on the master and written per header on the outstation (shared with C10.R5)", r17))
